@@ -18,7 +18,7 @@ PROPS = {
     'C05': {'units': ['chal', 'coef', 'bind'], 'kani': [], 'exclude': r'canonical_width', 'only': {'coef': r'select_path|recompose_base_coeffs_to_ext_impl\[dispatch\]\.(ensures\[(frame|output)|call\[|invariant\[)|recompose_base_coeffs_to_ext_impl\[const_fold', 'bind': r'add_poseidon[12]_perm_for_challenger(_base)?\.ensures\[(frame|shape|succeeds_when_enabled|emits_one_row|returns_the_rows)|duplexing_base(_p1)?\.ensures\[(emits_one_row|adopts_the_rows)'}},
     'C06': {'units': ['bind', 'pchain', 'pexec'], 'kani': [], 'only': {'pexec': r'compact_header|limb_ctl_enabled|preprocess_flags'}, 'exclude': r'H_the_index_accumulator_of_a_merkle_chain_start_row_is_pinned'},
     'C17': {'units': ['cache', 'rcplug', 'backcfg', 'order'], 'kani': [], 'only': {'order': r'lane_resolution'}},
-    'C10': {'units': ['sched', 'tracegen', 'ptrace', 'vrfy', 'extkind', 'order', 'prep'], 'kani': [], 'only': {'order': r'lane_resolution', 'prep': r'H_a_built_circuit_is_never_refused|a_free_slot_first_read_as_b'}},
+    'C10': {'units': ['sched', 'tracegen', 'ptrace', 'vrfy', 'extkind', 'order', 'prep', 'degpad'], 'kani': [], 'only': {'order': r'lane_resolution', 'prep': r'H_a_built_circuit_is_never_refused|a_free_slot_first_read_as_b'}},
     'C18': {'units': ['dsu', 'order', 'pphase', 'fvalid', 'iterord', 'hashord'], 'kani': []},
     'C14': {'units': ['pack', 'pack2', 'pack3', 'pubin'], 'kani': []},
     'C12': {'units': ['bits', 'chal', 'coef', 'rcair', 'prep'], 'kani': [], 'only': {'chal': r'canonical_width', 'prep': r'operand_[ac]_takes_part_in_the_witness_bus'}},
@@ -27,7 +27,7 @@ PROPS = {
     'C09': {'units': ['prep', 'mult', 'pread', 'pphase', 'ptrace', 'rcair'], 'kani': [], 'exclude': r'H_the_preprocessed_row_of_a_constant_commits_its_value|H_a_built_circuit_is_never_refused'},
     'C08': {'units': ['mmcs', 'hash', 'hashb', 'mbind', 'vbatch', 'vbatchx', 'a4sched', 'a4path'], 'kani': []},
     'C16': {'units': ['meta', 'vrfy', 'serde16', 'manif', 'rcplug', 'alu', 'extkind', 'serdeattr'], 'kani': [], 'only': {'alu': r'AluAir::eval'}},
-    'C11': {'units': ['air', 'alu', 'run19', 'tracegen', 'pchain', 'prep', 'sched'], 'kani': [], 'only': {'run19': r'execute_alu_op', 'prep': r'H_the_preprocessed_row_of_a_constant_commits_its_value', 'sched': r'true_iff_every_op_of_the_window_reads_the_same_b'}},
+    'C11': {'units': ['air', 'alu', 'run19', 'tracegen', 'pchain', 'p4chain', 'prep', 'sched'], 'kani': [], 'only': {'run19': r'execute_alu_op', 'prep': r'H_the_preprocessed_row_of_a_constant_commits_its_value', 'sched': r'true_iff_every_op_of_the_window_reads_the_same_b'}},
 }
 
 TB_COMMON = ['p3 field types satisfy the field laws the lemmas name; machine field arithmetic treated as mathematical',
